@@ -14,7 +14,7 @@ TRUSTED = [
     "reservation theorems: valve, quake, unreal2; gamespy one/two/three and the single-game protocols are measured through the same allocator on count / index / offset mutations (no theorem yet)",
 ]
 RULE = ("extreme values written into every length / count / size / index position of Spec-generated valid scripts (split headers, compressed size and CRC, player and rule counts, "
-        "string terminators; GameSpy: maxplayers / numplayers / query ids as huge numbers, a large index in the name of every kind of per-player variable, table row counts, field offsets; Unreal 2 announced counts; JC2M and Mindustry lengths) plus the C01 malformed stream; the implementation's measured largest single allocation must be <= 16 MiB, peak live <= 64 MiB, and the number of "
+        "string terminators; a compressed reply whose valid bzip2 stream expands to 32-96 MiB behind a small announced size; GameSpy: maxplayers / numplayers / query ids as huge numbers, a huge part number inside the GameSpy 1 query id, a large index in the name of every kind of per-player variable, table row counts, field offsets; Unreal 2 announced counts; JC2M and Mindustry lengths) plus the C01 malformed stream; the implementation's measured largest single allocation must be <= 16 MiB, peak live <= 64 MiB, and the number of "
         "datagrams sent <= 3 (retries+1) + datagrams received; non-trivial = a length/count field was altered; distinct by case bytes")
 MIB = 1 << 20
 
@@ -107,6 +107,26 @@ def gen_cases(tier, rng):
                     evs[i] = d
                 cases.append({"id": "gs%d/%d/%d" % (ver, g["seed"], j), "hex": gs_case(ver, 7777, 0, None, evs),
                               "meta": {"stream": "gamespy%d-counts" % ver, "retries": 0, "n": len(evs)}})
+    # GameSpy 1: the part number in the query id ("<id>.<part>") is an index chosen by the server
+    for g in [x for x in gs_specs(1, [rng.next() >> 1 for _ in range(20 if tier == "quick" else 300)]) if x["fits"]]:
+        for j, big in enumerate([b"50000000", b"300000000", b"4294967295", b"18446744073709551615", b"65536"]):
+            evs = list(g["events"])
+            i = r.below(len(evs))
+            d = evs[i]
+            at = d.find(b"\\queryid\\")
+            if at >= 0 and j % 2 == 0:
+                end = d.find(b"\\", at + 9)
+                end = len(d) if end < 0 else end
+                dot = d.find(b".", at + 9, end)
+                d = d[:dot + 1] + big + d[end:] if dot >= 0 else d[:end] + b"." + big + d[end:]
+            else:
+                cut = d.find(b"\\final\\")
+                ins = b"\\queryid\\7." + big
+                d = (d[:cut] + ins + d[cut:]) if cut >= 0 else d + ins
+            evs[i] = d
+            cases.append({"id": "gs1part/%d/%d" % (g["seed"], j), "hex": gs_case(1, 7777, 0, None, evs),
+                          "meta": {"stream": "gamespy1-part-number", "retries": 0, "n": len(evs)}})
+    cases += bomb_cases(tier)
     # single-game protocols: JC2M player count, Mindustry lengths, the Valve-based ones
     for game in range(6):
         seeds_g = [rng.next() >> 1 for _ in range(40 if tier == "quick" else 1000)]
@@ -126,6 +146,25 @@ def gen_cases(tier, rng):
                               "hex": (bytes([50, game]) + (5000).to_bytes(2, "big") + enc_ts(None) + enc_events(evs) + b"\x00\x00\x00").hex(),
                               "meta": {"stream": "single-games", "retries": 0, "n": len(evs)}})
     return cases
+
+
+def bomb_cases(tier):
+    """A compressed split reply whose bzip2 stream is valid but expands far beyond the size it announces: the oracle
+    table holds what the bounded decoder yields (announced size + 1 bytes), the client must not expand the rest."""
+    import bz2, zlib
+    info = b"\xff\xff\xff\xff\x49\x11" + b"srv\x00map\x00dir\x00Game\x00" + b"\x0a\x00" + bytes([3, 16, 0, 0x64, 0x6c, 0, 1]) + b"1.0\x00" + b"\x00"
+    players = b"\xff\xff\xff\xff\x44\x00"
+    out = []
+    for tag, total, announced in (("48m-64", 48 << 20, 64), ("96m-4096", 96 << 20, 4096), ("32m-100000", 32 << 20, 100000))[:(2 if tier == "quick" else 3)]:
+        comp = bz2.compress(bytes(total), 9)
+        seen = bytes(announced + 1)
+        h = b"\xfe\xff\xff\xff" + (0x80000000 | 77).to_bytes(4, "little") + bytes([1, 0]) + (1248).to_bytes(2, "little")
+        h += announced.to_bytes(4, "little") + (zlib.crc32(bytes(announced)) & 0xffffffff).to_bytes(4, "little")
+        bzt = bytes([1]) + len(comp).to_bytes(4, "big") + comp + announced.to_bytes(4, "big") + b"\x01" + len(seen).to_bytes(4, "big") + seen
+        settings = bytes([10]) + (27015).to_bytes(2, "big") + b"\x00" + bytes([1, 1, 2, 0]) + enc_ts(None)
+        out.append({"id": "bomb/" + tag, "hex": assemble(settings, [info, players, h + comp], bzt),
+                    "meta": {"stream": "decompression-bomb", "retries": 0, "n": 3}})
+    return out
 
 
 def oracle(case, impl, side):
